@@ -2,6 +2,7 @@
 # usage: try_seed.sh <patch.diff> <ID>...   applies the patch to /repo, runs the checks, undoes the patch
 P=$1; shift
 cd /verif
+[ -z "$(git -C /repo status --porcelain)" ] || { echo "/repo has uncommitted changes - commit or stash them first"; exit 2; }
 git -C /repo apply "$P" || { echo "patch does not apply"; exit 2; }
 for id in "$@"; do
   s=$(date +%s); ./bin/check $id > work/seed_$id.log 2>&1; rc=$?; e=$(date +%s)
